@@ -70,7 +70,7 @@ CLAIMED = {
     'C13': dict(
         text='Theorems: unexpected destruction iff no live requirement (unexpected_iff_none); with requirements alive nothing but sequence '
              'reports and EACH requirement becomes died (expected_destruction via notify_fold); still-alive once and forgotten by the object '
-             '(still_alive, forgotten_by_object); copies/moves do not inherit, assignment keeps (copies_do_not_inherit, assign_keeps). Second tie (translator): ~deathwatched, ~lifetime_monitor regenerated from /repo\'s current source by tools/cxx2lean.py on every run and proved equal to the model definitions (deathwatched_dtor_order, lifetime_monitor_dtor_order, killw_sem, releasemon_sem: the interpreted traces are the model transitions of killw / releasemon). Copies, moves and assignments of watched objects are made through every view of the source (non-const lvalue, const view, rvalue, const rvalue: they select different constructors of deathwatched<T>); the copy / move constructors of null_on_move are translated and tied (a copy or a move of a deathwatched object holds no requirement).',
+             '(still_alive, forgotten_by_object); copies/moves do not inherit, assignment keeps (copies_do_not_inherit, assign_keeps). Second tie (translator): ~deathwatched, ~lifetime_monitor regenerated from /repo\'s current source by tools/cxx2lean.py on every run and proved equal to the model definitions (deathwatched_dtor_order, lifetime_monitor_dtor_order, killw_sem, releasemon_sem: the interpreted traces are the model transitions of killw / releasemon). Copies, moves and assignments of watched objects are made through every view of the source (non-const lvalue, const view, rvalue, const rvalue: they select different constructors of deathwatched<T>); the copy / move constructors of null_on_move are translated and tied (a copy or a move of a deathwatched object holds no requirement). Pointer level (Props/C13_MonitorChain.lean over Model/Chain.lean, Lemmas/Chain.lean): for every history the older_monitor pointers from the head of each watched object spell the list of live requirements on it, newest first (monitor_chains_refine_world), so the walk in ~deathwatched tells exactly those (death_walk_visits_requirements); the unlink-this loop of ~lifetime_monitor is proved to be erase on a represented chain (rep_unlinkThis).',
         ref='DESIGN.md §4 C13', technique='Lean 4 proof (induction over the monitor chain) + model/implementation correspondence'),
     'C14': dict(
         text='Theorems: the linkage invariant WF (every id on a mock function list denotes a live expectation attached to exactly that '
@@ -98,7 +98,7 @@ CLAIMED = {
     'C17': dict(
         text='Theorems: accepted call => exactly one trace record to the head of the live-tracer chain with handler, arguments, result '
              '(trace_one_per_accepted); no tracer => no trace (no_tracer_no_trace); non-calls never trace (only_calls_trace); tracer chain '
-             'push/remove (tracer_stack, nested_restore). Re-entrant calls: the outer record is the last record of the operation and carries the outer result (reentrant_outer_record_last). Second tie (translator): ~tracer, mock_func regenerated from /repo\'s current source by tools/cxx2lean.py on every run and proved equal to the model definitions (tracer_dtor_tie, mock_func_order). Threads: scenario s9 of harness/conc (tracer constructed on the main thread, accepted calls on 2-8 worker threads, records = accepted calls; a nested tracer made and destroyed first) is part of this check. Tracer lifetimes that begin or end inside a call (tracer constructed by a side effect or a RETURN expression): harness/tracerlife, 16 cases.',
+             'push/remove (tracer_stack, nested_restore). Re-entrant calls: the outer record is the last record of the operation and carries the outer result (reentrant_outer_record_last). Second tie (translator): ~tracer, mock_func regenerated from /repo\'s current source by tools/cxx2lean.py on every run and proved equal to the model definitions (tracer_dtor_tie, mock_func_order). Threads: scenario s9 of harness/conc (tracer constructed on the main thread, accepted calls on 2-8 worker threads, records = accepted calls; a nested tracer made and destroyed first) is part of this check. Tracer lifetimes that begin or end inside a call (tracer constructed by a side effect or a RETURN expression): harness/tracerlife, 16 cases. Pointer level (Props/C17_TracerChain.lean): for every history the previous pointers from tracer_obj() spell the tracer stack of the World, newest first (tracer_chain_refines_world, innermost_is_head).',
         ref='DESIGN.md §4 C17', technique='Lean 4 proof + model/implementation correspondence'),
     'C11': dict(
         text='Theorems (all lengths, duplicates allowed): the element-wise fold / std::equal / std::mismatch loops accept exactly '
